@@ -12,6 +12,16 @@ TB_A = ("Trusted: CPython operator dispatch on engine.forksym.Lin, z3 linear ari
         "Stubs: tqdm -> identity, stderr -> sink.")
 
 CHECKS = {
+    "C12": dict(
+        technique="CrossHair (symbolic names) for label_internal; bounded symbolic execution (affine costs, z3 LIA) of the reconcile front end; file-level runs on solver witnesses",
+        text="label_internal is confirmed by CrossHair over all paths for symbolic ancestor names. cli.reconcile.read_input + call_algorithm run with "
+             "symbolic unit costs: on every feasible path of every algorithm and policy the results carry exactly the specified distinct names and z3 "
+             "proves each solution's oracle recount equal to the printed 'Minimum cost' for all cost vectors. The JSON lines, parse-back, draw, the "
+             "all-superset-of-any relation and exit status 1 without syntenies are exercised at file level with the solver's witness cost vectors "
+             "(concrete: costs cannot cross argv/JSON symbolically).",
+        design="5/C12", engine="crosshair",
+        note="Trusted: CrossHair 0.0.110 + z3, engine.forksym, oracles; argparse is bypassed (sub-command functions called with a Namespace); "
+             "get_species_mapping is enumerated (CrossHair 'Not confirmed')."),
     "C19": dict(
         technique="z3 specification (integer position per vertex, Distinct, pos[u] < pos[v]) deciding membership, distinctness and completeness of toposort_all's output set",
         text="For every digraph in the bound (every digraph on <= 4 vertices with self-loops in the thorough tier, seeded larger ones) z3 decides that "
